@@ -26,7 +26,9 @@ RULE = ('one evaluation = one path = one table/list skeleton x one class of its 
 BOUNDS = {
     'quick': 'tables of 3 rows x 4 declared columns: \\multicolumn at every (row, position) with a symbolic span; every placement of {none, \\hline, \\cline{a-b}} in two of the four rule '
              'slots with a,b symbolic in 1..4, with and without a spanning cell; 6 column specifications incl. *{n}{..} with symbolic n and bars inside/outside; empty cells; '
-             'lists: 12 skeletons (itemize/enumerate/description nested to depth 3, multi-paragraph items, terms with brackets) with symbolic item characters',
+             '8 specifications with @{} (leading, between, with bars), p{}, >{} / <{}; rules next to content-less rows (bare \\\\, empty cells, \\\\[len]) at the end and between rows; '
+             'an ungrouped declaration in each cell of 2 rows; lists: 15 skeletons (itemize/enumerate/description nested to depth 3, multi-paragraph items, terms with brackets, '
+             'grouped and ungrouped declarations in items) with symbolic item characters, and a blank line / newline / comment between \\begin and the first \\item',
     'thorough': 'all placements of rules in the four slots; 4-row tables; lists nested to depth 4',
 }
 ASSUMPTIONS = ['a horizontal rule written between two rows may be recorded either as the bottom border of the row above or as the top border of the row below',
@@ -190,6 +192,52 @@ def h_colspec(e, form):
     e.nontriv()
 
 
+# column specifications with inter-column material, paragraph columns and >{}/<{} hooks: (spec, column types, bar right of column k, bar left of column 1)
+SPECS2 = {
+    'at-lead': ('@{}ll@{}', 'll', [False, False], False),
+    'at-between': ('l@{ }c@{--}r', 'lcr', [False, False, False], False),
+    'at-bars': ('|@{}l|@{x}r@{}|', 'lr', [True, True], True),
+    'at-only-lead': ('@{x}c', 'c', [False], False),
+    'para': ('lp{2cm}|r', 'llr', [False, True, False], False),
+    'para-first': ('|p{1cm}|c', 'lc', [True, False], True),
+    'hooks': ('>{\\bfseries}l<{!}|c', 'lc', [True, False], False),
+    'star-at': ('*{2}{@{}c}@{}', 'cc', [False, False], False),
+}
+
+
+def h_colspec2(e, name):
+    spec, types, right, left0 = SPECS2[name]
+    ncol = len(types)
+    parts = ['\\begin{tabular}{' + spec + '}']
+    texts = []
+    for r in range(2):
+        row = []
+        for k in range(ncol):
+            ch = e.char('t%d_%d' % (r, k), 97, 122)
+            row.append(ch)
+            parts += (['&'] if k else []) + [ch]
+        texts.append(row)
+        parts.append('\\\\' if r == 0 else '')
+    parts.append('\\end{tabular}')
+    out = _parse(e, parts)
+    if out is None:
+        return
+    tab = out.getElementsByTagName('tabular')[0]
+    e.check(len(tab.colspec) == ncol, 'the specification %s declares %d columns, %d compiled' % (spec, ncol, len(tab.colspec)), 'colspec-columns')
+    real = _rows(tab)
+    e.check(len(real) == 2 and all(len(r.childNodes) == ncol for r in real), 'table shape', 'table-cells')
+    if not (len(real) == 2 and all(len(r.childNodes) == ncol for r in real)):
+        return
+    for r, row in zip(real, texts):
+        for k, c in enumerate(r.childNodes):
+            got = [x for x in api.chars(api.text_of(c.textContent)) if not (eq(x, ' ') or eq(x, '!'))]
+            e.check(len(got) == 1 and eq(got[0], row[k]), 'column %d of %s: cell text' % (k + 1, spec), 'table-cells')
+            e.check(c.style.get('text-align') == ALIGN[types[k]], 'column %d of %s: alignment %r, specification gives %r' % (k + 1, spec, c.style.get('text-align'), types[k]), 'cell-align')
+            e.check(bool(c.style.get('border-right')) == right[k], 'column %d of %s: right bar %r, specification gives %r' % (k + 1, spec, bool(c.style.get('border-right')), right[k]), 'cell-vbar')
+            e.check(bool(c.style.get('border-left')) == (left0 and k == 0), 'column %d of %s: left bar' % (k + 1, spec), 'cell-vbar')
+    e.nontriv()
+
+
 # ------------------------------------------------------------------------------------------- horizontal rules
 RULES = ['none', 'hline', 'cline']
 
@@ -284,6 +332,87 @@ def h_rules(e, slots, mc, empty_first):
     e.nontriv()
 
 
+def h_celldecl(e, row, k):
+    """an ungrouped declaration inside a cell ends with the cell: the table keeps its shape, later cells and rows are not inside it"""
+    cells = [['p', 'q', 'r', 's'], ['t', 'u', 'v', 'w'], ['h', 'i', 'j', 'k']]
+    decl = ['\\bfseries ', '\\itshape ', '\\small ', '\\centering '][e.choice(4, 'decl')]
+    name = decl.strip()[1:]
+    parts = ['\\begin{tabular}{lcrl}']
+    for r in range(3):
+        row_parts = []
+        for c in range(4):
+            row_parts.append((decl if (r, c) == (row, k) else '') + cells[r][c])
+        parts.append('&'.join(row_parts) + '\\\\ ')
+    parts.append('\\end{tabular}')
+    out = _parse(e, parts)
+    if out is None:
+        return
+    tab = out.getElementsByTagName('tabular')[0]
+    real = _rows(tab)
+    e.check(len(real) == 3 and all(r.parentNode is tab for r in real), 'table has %d rows directly inside it, 3 written' % len(real), 'table-rows')
+    if len(real) != 3:
+        return
+    for r in range(3):
+        got = [str(c.textContent).strip() for c in real[r].childNodes if getattr(c, 'nodeName', None) == 'ArrayCell']
+        e.check(got == cells[r], 'row %d holds cells %r, written %r' % (r, got, cells[r]), 'table-cells')
+    decls = out.getElementsByTagName(name)
+    e.check(len(decls) == 1, '%d <%s> nodes' % (len(decls), name), 'table-cells')
+    if len(decls) == 1:
+        e.check(str(decls[0].textContent).strip() == cells[row][k], 'the declaration \\%s written in one cell encloses %r' % (name, str(decls[0].textContent).strip()), 'declaration-leak')
+    e.nontriv()
+
+
+SPACERS = {'none': '', 'empty-row': '\\\\ ', 'empty-cells': '&&&\\\\ ', 'skip': '\\\\[2pt] ', 'two-empty': '\\\\ \\\\ '}
+
+
+def h_spacer(e, spacer, kind, pos):
+    """rows without content (a bare \\\\, empty cells) are dropped from the tree: a rule written next to one must still show on the neighbouring kept row"""
+    parts = ['\\begin{tabular}{lcrl}p&q&r&s\\\\ ']
+    if kind == 'hline':
+        rng = (1, 4)
+        rule = ['\\hline ']
+    else:
+        a = e.int('a', 1, 4)
+        b = e.int('b', 1, 4)
+        e.assume(a <= b)
+        rng = (a, b)
+        rule = ['\\cline{', api.chr_(a + 48), '-', api.chr_(b + 48), '} ']
+    if pos == 'end':
+        parts += ['t&u&v&w\\\\ ', SPACERS[spacer]] + rule
+    elif pos == 'middle-before':
+        parts += [SPACERS[spacer]] + rule + ['t&u&v&w\\\\ ']
+    else:
+        parts += rule + [SPACERS[spacer], 't&u&v&w\\\\ ']
+    parts.append('\\end{tabular}')
+    out = _parse(e, parts)
+    if out is None:
+        return
+    tab = out.getElementsByTagName('tabular')[0]
+    real = _rows(tab)
+    kept = [r for r in real if len(_celltext_row(r))]
+    e.check(len(kept) == 2 and [_celltext_row(r) for r in kept] == ['pqrs', 'tuvw'], 'rows with content: %r' % [_celltext_row(r) for r in real], 'table-rows')
+    if len(kept) != 2:
+        return
+    for k in range(4):
+        want = api.and_(rng[0] <= k + 1, rng[1] >= k + 1)
+        if pos == 'end':
+            seen = _has(real[-1].childNodes[k], 'bottom') if len(real[-1].childNodes) == 4 else False
+            where = 'below the last row'
+        else:
+            i0, i1 = [i for i, r in enumerate(real) if any(r is x for x in kept)]
+            between = real[i0:i1 + 1]
+            seen = any((_has(r.childNodes[k], 'bottom') if r is not between[-1] else False) or (_has(r.childNodes[k], 'top') if r is not between[0] else False)
+                       for r in between if len(r.childNodes) == 4)
+            where = 'between the two rows'
+        e.check(_same(seen, want), 'column %d: rule %s %s is %s (spacer %r)' % (k + 1, _show(rng), where, 'shown' if seen else 'not shown', spacer),
+                'hrule-missing' if not seen else 'hrule-extra')
+    e.nontriv()
+
+
+def _celltext_row(r):
+    return ''.join(str(c.textContent).strip() for c in r.childNodes)
+
+
 def _same(flag, cond):
     if isinstance(cond, bool):
         return flag == cond
@@ -311,10 +440,13 @@ LISTS = {
     'multipar': ('itemize', [('P', []), ('I', [])]),
     'multipar-nested': ('enumerate', [('P', [('itemize', [('I', [])])]), ('P', [])]),
     'env-in-item': ('itemize', [('Q', []), ('I', [])]),
+    'group-in-item': ('itemize', [('G', []), ('I', []), ('G', [])]),
+    'declaration-in-item': ('itemize', [('D', []), ('I', []), ('I', [])]),
+    'declaration-in-nested-item': ('enumerate', [('I', [('itemize', [('D', []), ('I', [])])]), ('I', [])]),
 }
 
 
-def h_list(e, name):
+def h_list(e, name, lead=''):
     env, items = LISTS[name]
     n = [0]
     parts = []
@@ -326,7 +458,7 @@ def h_list(e, name):
         return c
 
     def gen(env, items):
-        parts.append('\\begin{%s}' % env)
+        parts.append('\\begin{%s}' % env + lead)                 # lead: a blank line / comment between \begin and the first \item
         out = []
         for kind, kids in items:
             a, b = leaf(), leaf()
@@ -348,6 +480,12 @@ def h_list(e, name):
                 text.append(b)
             if kind == 'Q':
                 parts.extend(['\\begin{quote}', b, '\\end{quote}'])
+                text.append(b)
+            if kind == 'G':                   # a grouped declaration
+                parts.extend([' {\\bfseries ', b, '} '])
+                text.append(b)
+            if kind == 'D':                   # an ungrouped declaration: in force to the end of the list, but it opens no new structure
+                parts.extend([' \\bfseries ', b, ' '])
                 text.append(b)
             sub = []
             for kenv, kitems in kids:
@@ -398,7 +536,7 @@ def h_list(e, name):
     def cmp(node, envname, want, path):
         e.check(node.nodeName == envname, '%s: <%s> where <%s> was written' % (path, node.nodeName, envname), 'list-structure')
         its = [c for c in node.childNodes if getattr(c, 'nodeName', None) == 'item']
-        e.check(len(its) == len(want), '%s: %d items, %d \\item written' % (path, len(its), len(want)), 'item-count')
+        e.check(len(its) == len(want), '%s: %d items, %d \\item written' % (path, len(its), len(want)), 'item-count' + (':declaration' if name.startswith('declaration-in') else ''))
         if len(its) != len(want):
             return False
         for k, (it, w) in enumerate(zip(its, want)):
@@ -434,6 +572,8 @@ def jobs(tier, seed):
                 J.append(dict(harness='h_spans', params=dict(spec=spec, mc_row=mc_row, mc_pos=mc_pos), label='spans %s row%d pos%d' % (spec, mc_row, mc_pos), no_twin=True))
     for form in ('inside', 'outside', 'pair'):
         J.append(dict(harness='h_colspec', params=dict(form=form), label='colspec *{n} %s' % form, no_twin=form != 'inside'))
+    for name in SPECS2:
+        J.append(dict(harness='h_colspec2', params=dict(name=name), label='colspec ' + SPECS2[name][0], no_twin=True))
     allslots = list(itertools.product(RULES, repeat=4))
     for i, slots in enumerate(allslots):
         nr = sum(1 for s in slots if s != 'none')
@@ -443,6 +583,16 @@ def jobs(tier, seed):
             continue
         for mc in (False, True):
             J.append(dict(harness='h_rules', params=dict(slots=list(slots), mc=mc, empty_first=(i % 3 == 0)), label='rules %s mc=%s' % ('/'.join(slots), mc), no_twin=True))
+    for spacer in SPACERS:
+        for kind in ('hline', 'cline'):
+            for pos in ('end', 'middle-before', 'middle-after'):
+                J.append(dict(harness='h_spacer', params=dict(spacer=spacer, kind=kind, pos=pos), label='rule %s next to spacer %s (%s)' % (kind, spacer, pos), no_twin=True))
     for name in LISTS:
         J.append(dict(harness='h_list', params=dict(name=name), label='list ' + name, no_twin=name != 'flat2'))
+    for name in ('flat2', 'nested-last', 'desc', 'multipar-nested'):
+        for lead, ll in (('\n\n', 'blank line'), ('\n', 'newline'), ('%c\n\n', 'comment and blank line')):
+            J.append(dict(harness='h_list', params=dict(name=name, lead=lead), label='list %s, %s before the first item' % (name, ll), no_twin=True))
+    for row in (0, 1):
+        for k in range(4):
+            J.append(dict(harness='h_celldecl', params=dict(row=row, k=k), label='declaration in cell %d of row %d' % (k, row), no_twin=True))
     return J
